@@ -94,6 +94,7 @@ type ContractSet struct {
 	WireFmts []*SchemaType
 	TextOrder map[string][]string // record type -> fields in the order of its presentation format (when it differs from the wire order)
 	NoText map[string]bool // record types without a presentation format of their own
+	GhostField map[string]string // "<type>.<ghost>" -> heap component that defines it (ghostfield directive)
 	Files  []string
 }
 
@@ -229,6 +230,19 @@ func (cs *ContractSet) parseFile(path string) error {
 			for _, t := range strings.Fields(rest) {
 				cs.NoText[t] = true
 			}
+			cur = nil
+		case "ghostfield":
+			// ghostfield TYPE NAME COMPONENT: ghost(x, "NAME") of a TYPE is by definition the heap component
+			// H.TYPE.COMPONENT of x (e.g. the length of strings.Builder's buf), so facts the engine derives about the
+			// real field (a zero value has length 0) hold for the ghost without an assumption
+			f := strings.Fields(rest)
+			if len(f) != 3 {
+				return fail(fmt.Errorf("ghostfield TYPE NAME COMPONENT"))
+			}
+			if cs.GhostField == nil {
+				cs.GhostField = map[string]string{}
+			}
+			cs.GhostField[f[0]+"."+f[1]] = "H." + f[0] + "." + f[2]
 			cur = nil
 		case "spec":
 			sp, err := parseSpec(rest)
